@@ -70,6 +70,12 @@ def op_code(op):
         return [6, op[1], 0, int(op[2])]
     if k == "after":
         return [7, op[1], 0, int(op[2])]
+    if k == "sliceto":
+        return [8, op[1], 0, 0]
+    if k == "negidx":
+        return [9, op[1], 0, 0]
+    if k == "xafter":
+        return [10, op[1], 0 if op[2] is None else op[2], int(op[3]) + (0 if op[2] is None else 2)]
     raise ValueError(op)
 
 
@@ -106,6 +112,14 @@ def run_op(rule, op):
             return _opt(rule.before(R.to_dt(op[1]), inc=op[2]))
         if k == "after":
             return _opt(rule.after(R.to_dt(op[1]), inc=op[2]))
+        if k == "sliceto":
+            l = [R.to_int(x) for x in rule[:op[1]]]
+            return [1, len(l)] + l
+        if k == "negidx":
+            return [1, 1, R.to_int(rule[-(op[1] + 1)])]
+        if k == "xafter":
+            l = [R.to_int(x) for x in rule.xafter(R.to_dt(op[1]), count=op[2], inc=op[3])]
+            return [1, len(l)] + l
     except IndexError:
         return [2, 1]
     except TypeError:
@@ -123,7 +137,17 @@ def run_op(rule, op):
 
 # ------------------------------------------------------------------ scheduling points
 
+_POINTS = []
+
+
 def sched_points():
+    """computed once per process (the source file may be edited on disk while a check runs)"""
+    if not _POINTS:
+        _POINTS.append(_sched_points())
+    return _POINTS[0]
+
+
+def _sched_points():
     from dateutil import rrule as RR
     B = RR.rrulebase
     pts = {}
@@ -137,7 +161,7 @@ def sched_points():
         hits = [k for k, line in enumerate(src) if line.strip() == text]
         if len(hits) > which:
             pts[(f.__code__, hits[which])] = code
-    for name in ("__getitem__", "__contains__", "before", "after", "between"):
+    for name in ("__getitem__", "__contains__", "before", "after", "between", "xafter"):
         find(getattr(B, name), "if self._cache_complete:", 100)
     find(B.count, "if self._len is None:", 101)
     find(B.count, "return self._len", 103)
